@@ -44,6 +44,7 @@ vars_all == <<cfg, phase, regpos, content, closed, ctab, c_idx, c_cnt, cst, cs_i
 IsWs(c)      == c \in {32, 9, 10, 11, 12, 13}
 Lower(c)     == IF c >= 65 /\ c <= 90 THEN c + 32 ELSE c
 LowerSeq(s)  == [i \in 1 .. Len(s) |-> Lower(s[i])]
+EqCI(a, b)   == Len(a) = Len(b) /\ \A k \in 1 .. Len(a) : Lower(a[k]) = Lower(b[k])     \* equal without regard to case
 SetMin(S)    == Min(S)          \* FiniteSetsExt (linear; a CHOOSE over S x S is quadratic and names of 1000 characters occur)
 SetMax(S)    == Max(S)
 NonWs(s)     == {i \in 1 .. Len(s) : ~IsWs(s[i])}
@@ -146,14 +147,14 @@ Resolve(path) ==                                          \* the file a path nam
 \* depends on its input and the current settings only).  cfg.prog = current program name, cfg.magic[f] = NAME in file f's first
 \* line (cfg.magic = <<>>: every file carries the current name).  X: program names longer than 27 characters.
 MagicOf(f) == IF cfg.magic = <<>> THEN cfg.prog ELSE cfg.magic[f]
-Opens(f) == f > 0 /\ KindOf(f) = "ok" /\ LowerSeq(MagicOf(f)) = LowerSeq(cfg.prog)   \* I: accepted iff it exists and starts with the magic line
+Opens(f) == f > 0 /\ KindOf(f) = "ok" /\ EqCI(MagicOf(f), cfg.prog)   \* I: accepted iff it exists and starts with the magic line
 
 ------------------------------------------------------------------------------------------------
 (* the mechanism *)
 Inc8(i)       == (i + 1) % 256                           \* the indices are unsigned char
 Grow(i2, cnt) == IF i2 = cnt THEN (cnt * 2) % CapMod ELSE cnt     \* `if (++idx == cnt) cnt *= 2`
 Lookup(name)  ==                                           \* first table entry matching case-insensitively; S: unknown -> null (0)
-    LET hit == {i \in 1 .. Len(ctab) : LowerSeq(ctab[i].name) = LowerSeq(name)} IN
+    LET hit == {i \in 1 .. Len(ctab) : EqCI(ctab[i].name, name)} IN
     IF hit = {} THEN 0 ELSE SetMin(hit) - 1
 Top   == fst[Len(fst)]
 Frame == cst[Len(cst)]
@@ -337,13 +338,15 @@ FlatFrom(f, i, d) ==                                          \* lines of file f
 Flat == FlatFrom(1, 1, NFiles)
 RECURSIVE RefFold(_, _, _, _)
 RefFold(ls, i, stack, acc) ==                                 \* stack: table ids of the open contexts, innermost last
-    IF i > Len(ls) THEN [calls |-> acc, depth |-> Len(stack)]
-    ELSE LET l == ls[i] c == Sc(l).c n == Len(stack) IN
-         CASE c = "begin" -> RefFold(ls, i + 1, Append(stack, Lookup(Sc(l).name)),
-                                     Append(acc, [id |-> Lookup(Sc(l).name), k |-> "B", x |-> 0, t |-> Sc(l).name]))
-           [] c = "end" /\ n > 0 -> RefFold(ls, i + 1, SubSeq(stack, 1, n - 1), Append(acc, [id |-> stack[n], k |-> "E", x |-> 0, t |-> <<>>]))
+    IF i > Len(ls) THEN [calls |-> acc, depth |-> Len(stack)]   \* (TLCEval: evaluate the accumulators now, not as a chain of thunks)
+    ELSE LET l == ls[i] sc == Sc(l) c == sc.c n == Len(stack) IN
+         CASE c = "begin" -> LET id == TLCEval(Lookup(sc.name)) IN
+                             RefFold(ls, i + 1, TLCEval(Append(stack, id)),
+                                     TLCEval(Append(acc, [id |-> id, k |-> "B", x |-> 0, t |-> sc.name])))
+           [] c = "end" /\ n > 0 -> RefFold(ls, i + 1, TLCEval(SubSeq(stack, 1, n - 1)),
+                                            TLCEval(Append(acc, [id |-> stack[n], k |-> "E", x |-> 0, t |-> <<>>])))
            [] c = "text" -> RefFold(ls, i + 1, stack,
-                                    Append(acc, [id |-> IF n = 0 THEN 0 ELSE stack[n], k |-> "L", x |-> Sc(l).dl.x, t |-> Sc(l).dl.t]))
+                                    TLCEval(Append(acc, [id |-> IF n = 0 THEN 0 ELSE stack[n], k |-> "L", x |-> sc.dl.x, t |-> sc.dl.t])))
            [] OTHER -> RefFold(ls, i + 1, stack, acc)
 Ref  == RefFold(Flat, 1, <<>>, <<>>)
 Proj == [i \in 1 .. Len(calls) |-> [id |-> calls[i].id, k |-> calls[i].k, x |-> calls[i].x, t |-> calls[i].t]]
@@ -357,8 +360,8 @@ DeliveredOnceInOrder == Claimed => SelectSeq(Proj, IsL) = SelectSeq(Ref.calls, I
 BeginEndPaired       == Claimed => SelectSeq(Proj, NotL) = SelectSeq(Ref.calls, NotL)
 InnermostContext     == Claimed => Proj = Ref.calls
 UnknownFallsToNull   == phase = "done" => \A i \in 1 .. Len(calls) :
-                           calls[i].k = "B" => \/ LowerSeq(ctab[calls[i].id + 1].name) = LowerSeq(calls[i].t)
-                                               \/ calls[i].id = 0 /\ \A j \in 1 .. Len(ctab) : LowerSeq(ctab[j].name) # LowerSeq(calls[i].t)
+                           calls[i].k = "B" => \/ EqCI(ctab[calls[i].id + 1].name, calls[i].t)
+                                               \/ calls[i].id = 0 /\ \A j \in 1 .. Len(ctab) : ~EqCI(ctab[j].name, calls[i].t)
 RECURSIVE Thr(_, _)
 Thr(i, stk) ==                                                \* the state a handler returns is the state it receives next
     IF i > Len(calls) THEN TRUE
